@@ -82,23 +82,27 @@ type Exec struct {
 
 	qcache map[string]qres
 
-	catchDepth int
-	inputs     []InputRec
-	inputSeen  map[string]bool
-	lockState  map[*Object]int // sync mutex model: 0 free, -1 write, >0 readers
-	harness    *ssa.Function
-	fninfo     map[*ssa.Function]*fnInfo
-	summaries  map[*ssa.Function]*summary
-	curInstr   ssa.Instruction
-	covers     map[string]bool
-	timeNow    int
-	randCtr    int
-	ifconvOK   map[*ssa.BasicBlock]*ifRegion
-	lockEvents []string
-	lastNow    Value
-	decOrigin  map[**sym.Term]decInfo
-	b64Origin  map[string][]*sym.Term
-	guardDepth int
+	catchDepth  int
+	inputs      []InputRec
+	inputSeen   map[string]bool
+	lockState   map[*Object]int // sync mutex model: 0 free, -1 write, >0 readers
+	harness     *ssa.Function
+	fninfo      map[*ssa.Function]*fnInfo
+	summaries   map[*ssa.Function]*summary
+	curInstr    ssa.Instruction
+	covers      map[string]bool
+	timeNow     int
+	randCtr     int
+	ifconvOK    map[*ssa.BasicBlock]*ifRegion
+	lockEvents  []string
+	lastNow     Value
+	decOrigin   map[**sym.Term]decInfo
+	b64Origin   map[string][]*sym.Term
+	guardDepth  int
+	udpSocks    map[*Object]*udpSock
+	udpNextPort int
+	syncMaps    map[*Object]map[int]*MapObj
+	onceDone    map[*Object]map[int]bool
 }
 
 type qres struct {
